@@ -138,8 +138,10 @@ def _run_harness(ctx, argv, out, unit_flag='-start', watchdog='5s'):
             for l in r.stdout.splitlines():
                 if l.startswith('RESUME'):
                     start = int(l.split()[1])
-            if timeouts > 40:
-                raise Infra('harness: more than 40 calls did not return; giving up')
+            if timeouts >= 12:
+                # every further one costs a watchdog period; the calls that did not
+                # return are in the trace and will be rejected (that is the verdict)
+                return timeouts
             continue
         raise Infra('harness failed (exit %d): %s %s' % (r.returncode, r.stdout[-2000:], r.stderr[-2000:]))
 
